@@ -56,7 +56,12 @@ pub fn generate(rng: &mut Rng, tier: Tier) -> Value {
         return serde_json::to_value(sc).expect("ser");
     }
     let from_harvest = rng.chance(2, 5);
-    let (name, parts, weak) = if from_harvest {
+    let (name, parts, weak) = if rng.chance(1, 8) {
+        // promise reactions, async functions and async generators in flight (C16's generated corpus)
+        let g = crate::props::c16::generated();
+        let (n, src, _) = &g[rng.idx(g.len())];
+        (format!("async:{n}"), vec![src.clone()], false)
+    } else if from_harvest {
         let h = kernels::harvest();
         let g = &h[rng.idx(h.len())];
         (format!("harvest:{}", g.0), g.1.clone(), false)
@@ -384,7 +389,7 @@ pub const PROP: Prop = Prop {
     generate,
     execute,
     shrink,
-    rule: "one run = one program (1..3 kernels out of 41 feature kernels, possibly split across evaluations, one of 858 harvested test groups = several evaluations sharing a context, or — 1 run in 8 — a fault-free module graph from the C17 generator evaluated twice through the simulated loader) x evaluation mode (sync / budget 1..256 with collections at yields) x collection schedule (every k-th allocation for k in {1,2,3,7,64} — k=1 enumerates every allocation point of the program —, seeded Bernoulli at 0.2..20 %, host-entry and job boundaries), executed under the schedule and under 'never collect'; non-trivial = at least one collection was injected; distinct = distinct (program, schedule, budget, allocation points, collections fired)",
+    rule: "one run = one program (1..3 kernels out of 41 feature kernels, possibly split across evaluations, one of 858 harvested test groups = several evaluations sharing a context, or — 1 run in 8 each — a fault-free module graph from the C17 generator evaluated twice through the simulated loader, or one of C16's 1493 generated promise / async-generator programs) x evaluation mode (sync / budget 1..256 with collections at yields) x collection schedule (every k-th allocation for k in {1,2,3,7,64} — k=1 enumerates every allocation point of the program —, seeded Bernoulli at 0.2..20 %, host-entry and job boundaries), executed under the schedule and under 'never collect'; non-trivial = at least one collection was injected; distinct = distinct (program, schedule, budget, allocation points, collections fired)",
     real: &["lexer/parser/compiler/VM/builtins", "boa_gc collector and allocator", "SimpleJobExecutor", "WeakRef/FinalizationRegistry machinery"],
     stub: &["collection trigger decision (hook H1)", "SimClock", "SimHooks", "print/weakobs natives"],
     assumptions: &[
